@@ -56,27 +56,32 @@ def _is_name(e, name):
     return d is not None and d.split(".")[-1] == name
 
 
-def _cut_false(g, t):
-    """nodes reachable from entry when the false edge(s) of test node t are removed"""
-    return g.reachable([g.entry], edge_ok=lambda a, b, l: not (a == t and l == "false"))
+def _cut(g, t, clean):
+    """nodes reachable from entry when the `clean` outcome edge(s) of test node t are removed, i.e. everything that can
+    run while the tested value may still be the sentinel"""
+    return g.reachable([g.entry], edge_ok=lambda a, b, l: not (a == t and l == clean))
 
 
 def _sentinel_tests(g, var, sentinel):
-    """test nodes whose FALSE outcome implies `var is not <sentinel>` -> [(node id, returns-sentinel-on-true)]"""
+    """test nodes one outcome of which implies `var is not <sentinel>` (`if v is S: ...` -> the false outcome,
+    `if v is not S and ...: ...` -> the true outcome) -> [(node id, the other outcome returns the sentinel, clean label)]"""
     out = []
     for n in g.nodes:
         if n.kind != "test" or not isinstance(n.stmt, ast.If):
             continue
-        atoms = test_atoms(n.stmt.test, False)
-        if any(p is False and re.fullmatch(rf"{re.escape(var)} is (\w+\.)*{sentinel}", a) for a, p in atoms):
-            tsucc = [b for b, l in g.succ[n.id] if l == "true"]
-            rets = bool(tsucc) and all(
-                isinstance(g.nodes[b].stmt, ast.Return) and g.nodes[b].stmt.value is not None
-                and (_is_name(g.nodes[b].stmt.value, sentinel) if sentinel != "None" else
-                     (isinstance(g.nodes[b].stmt.value, ast.Constant) and g.nodes[b].stmt.value.value is None))
-                for b in tsucc
-            )
-            out.append((n.id, rets))
+        for clean in ("false", "true"):
+            atoms = test_atoms(n.stmt.test, clean == "true")
+            if any(p is False and re.fullmatch(rf"{re.escape(var)} is (\w+\.)*{sentinel}", a) for a, p in atoms):
+                other = "true" if clean == "false" else "false"
+                osucc = [b for b, l in g.succ[n.id] if l == other]
+                rets = bool(osucc) and all(
+                    isinstance(g.nodes[b].stmt, ast.Return) and g.nodes[b].kind == "stmt" and g.nodes[b].stmt.value is not None
+                    and (_is_name(g.nodes[b].stmt.value, sentinel) if sentinel != "None" else
+                         (isinstance(g.nodes[b].stmt.value, ast.Constant) and g.nodes[b].stmt.value.value is None))
+                    for b in osucc
+                )
+                out.append((n.id, rets, clean))
+                break
     return out
 
 
@@ -137,11 +142,11 @@ def r1(ctx):
                     ctx.violation(key, f"{v} = {e}(obj) is never tested `is _EXPIRED_OBJECT`: an expired attribute "
                                        f"would be treated as an ordinary value", loc)
                     continue
-                t, rets = tests[0]
+                t, rets, clean = tests[0]
                 probs = []
                 if not rets:
                     probs.append("the expired branch does not return _EXPIRED_OBJECT")
-                allowed = _cut_false(g, t)
+                allowed = _cut(g, t, clean)
                 uses = [n for n in ast.walk(cl) if isinstance(n, ast.Name) and n.id == v and isinstance(n.ctx, ast.Load)]
                 uses += [c for c in cs if c is not vs[0][1]]
                 early = []
@@ -176,8 +181,8 @@ def r1(ctx):
                         continue
                     tests = _sentinel_tests(g, v, "None")
                     ok = False
-                    for t, rets in tests:
-                        allowed = _cut_false(g, t)
+                    for t, rets, clean in tests:
+                        allowed = _cut(g, t, clean)
                         if rets and not any(n in allowed for n in rn):
                             ok = True
                     if not ok:
@@ -463,8 +468,12 @@ def r4(ctx):
         fetch = g.find_calls("_do_pre_synchronize_fetch")
         noraise = not [r for r in walk_local(h) if isinstance(r, ast.Raise)]
         w = g.must_pass(hn, [g.exit], fetch, edge_ok=no_exc)
-        ev_ret = any(isinstance(r, ast.Return) and "'evaluate'" in unparse(r.value) and "_eval_condition" in unparse(r.value)
-                     for st in t.orelse for r in [st] + list(walk_local(st)))
+        # when the criteria compile, every normal path selects 'evaluate' with the compiled condition -- and the handler never does
+        compiled = g.find_calls("_eval_condition_from_statement")
+        ev_rets = [n.id for n in g.nodes if n.kind == "stmt" and isinstance(n.stmt, ast.Return) and n.stmt.value is not None
+                   and "'evaluate'" in unparse(n.stmt.value) and "_eval_condition" in unparse(n.stmt.value)]
+        ev_ret = bool(compiled) and bool(ev_rets) and g.must_pass(compiled, [g.exit], ev_rets, edge_ok=no_exc) is None \
+            and not (set(ev_rets) & g.reachable(hn, edge_ok=no_exc))
         good = noraise and w is None and bool(fetch) and ev_ret
     ctx.check(good, f.key, "'auto' does not fall back to the fetch strategy when the criteria cannot be evaluated "
                            "(or does not select 'evaluate' when they can)",
@@ -575,8 +584,10 @@ def r4(ctx):
         for n in walk_local(fi.node):
             if isinstance(n, ast.Assign) and len(n.targets) == 1 and isinstance(n.targets[0], ast.Name):
                 v = n.value
-                if isinstance(v, ast.Call) and (call_name(v) or "").endswith(".process") and "evaluator" in (call_name(v) or ""):
-                    evnames.add(n.targets[0].id)
+                if isinstance(v, ast.Call) and isinstance(v.func, ast.Attribute) and v.func.attr == "process":
+                    rc = G.resolve_name(v.func.value, G.single_defs(fi.node))
+                    if "evaluator" in (call_name(v) or "") or (isinstance(rc, ast.Call) and (call_name(rc) or "").endswith("_EvaluatorCompiler")):
+                        evnames.add(n.targets[0].id)
                 if isinstance(v, ast.Attribute) and v.attr == "_eval_condition":
                     evnames.add(n.targets[0].id)
         for n in walk_local(fi.node):
@@ -608,14 +619,22 @@ def r4(ctx):
     f = ctx.func(f"{BP}::_BulkORMUpdate._apply_update_set_values_to_objects")
     t, h = _handler_for(f.node, "UnevaluatableError")
     swallowed = h is not None and not [r for r in walk_local(h) if isinstance(r, ast.Raise)]
+    # the keys that get evaluated: `<state>.unmodified.intersection(<evaluable keys>)`; everything else in SET is expired
+    evaluated = {n.targets[0].id for n in walk_local(f.node) if isinstance(n, ast.Assign) and len(n.targets) == 1 and isinstance(n.targets[0], ast.Name)
+                 and any(isinstance(c, ast.Call) and isinstance(c.func, ast.Attribute) and c.func.attr == "intersection"
+                         and isinstance(c.func.value, ast.Attribute) and c.func.value.attr == "unmodified" for c in ast.walk(n.value))}
+    uses_unmod = bool(evaluated)
     exp = False
     for c in calls_in(f.node):
-        if (call_name(c) or "").endswith("._expire_attributes") and len(c.args) == 2 and isinstance(c.args[1], ast.Name):
-            for n in walk_local(f.node):
-                if isinstance(n, ast.Assign) and isinstance(n.targets[0], ast.Name) and n.targets[0].id == c.args[1].id \
-                        and ".difference(to_evaluate)" in unparse(n.value).replace("\n", ""):
-                    exp = True
-    uses_unmod = any(".unmodified.intersection(" in unparse(n.value) for n in walk_local(f.node) if isinstance(n, ast.Assign))
+        if (call_name(c) or "").endswith("._expire_attributes") and len(c.args) == 2:
+            srcs = [c.args[1]]
+            if isinstance(c.args[1], ast.Name):
+                srcs = [n.value for n in walk_local(f.node) if isinstance(n, ast.Assign) and isinstance(n.targets[0], ast.Name) and n.targets[0].id == c.args[1].id]
+            for v_ in srcs:
+                for d in ast.walk(v_):
+                    if isinstance(d, ast.Call) and isinstance(d.func, ast.Attribute) and d.func.attr == "difference" \
+                            and any(isinstance(x, ast.Name) and x.id in evaluated for a_ in d.args for x in ast.walk(a_)):
+                        exp = True
     ctx.check(swallowed and exp and uses_unmod, f"{f.key}:unevaluable-values",
               "SET values that cannot be evaluated (or belong to locally modified attributes) are not expired on the matched objects",
               "evaluated for unmodified keys, everything else in SET expired", f.loc)
@@ -954,3 +973,24 @@ R.mutant("match-guard-clause-by-equality", BP,
          sub(_MATCH_IF, "            if evaled_condition != True:\n                continue\n            result.append(\n                (obj, state, dict_, evaled_condition is evaluator._EXPIRED_OBJECT)\n            )\n"), "C43-R4")
 R.mutant("match-expired-not-matched", BP,
          sub(_MATCH_IF, "            if evaled_condition is True:\n                result.append((obj, state, dict_, False))\n"), "C43-R4")
+
+# further everyday shapes
+R.mutant("benign-is-op-inverted-expired-test", EV,
+         sub("            if left_val is _EXPIRED_OBJECT or right_val is _EXPIRED_OBJECT:\n                return _EXPIRED_OBJECT\n            return left_val == right_val\n",
+             "            if left_val is not _EXPIRED_OBJECT and right_val is not _EXPIRED_OBJECT:\n                return left_val == right_val\n            return _EXPIRED_OBJECT\n"), None)
+R.mutant("benign-straight-split-expired-tests", EV,
+         sub("            if left_val is _EXPIRED_OBJECT or right_val is _EXPIRED_OBJECT:\n                return _EXPIRED_OBJECT\n            elif left_val is None or right_val is None:\n                return None\n",
+             "            if left_val is _EXPIRED_OBJECT:\n                return _EXPIRED_OBJECT\n            if right_val is _EXPIRED_OBJECT:\n                return _EXPIRED_OBJECT\n            if left_val is None or right_val is None:\n                return None\n"), None)
+R.mutant("is-op-inverted-test-left-only", EV,
+         sub("            if left_val is _EXPIRED_OBJECT or right_val is _EXPIRED_OBJECT:\n                return _EXPIRED_OBJECT\n            return left_val == right_val\n",
+             "            if left_val is not _EXPIRED_OBJECT:\n                return left_val == right_val\n            return _EXPIRED_OBJECT\n"), "C43-R1")
+R.mutant("benign-auto-fetch-fallback-inside-handler", BP,
+         sub("        except evaluator.UnevaluatableError:\n            pass\n        else:\n            return update_options + {\n                \"_eval_condition\": eval_condition,\n                \"_synchronize_session\": \"evaluate\",\n            }\n\n"
+             "        update_options += {\"_synchronize_session\": \"fetch\"}\n        return cls._do_pre_synchronize_fetch(\n            session,\n            statement,\n            params,\n            execution_options,\n            bind_arguments,\n            update_options,\n        )\n",
+             "        except evaluator.UnevaluatableError:\n            update_options += {\"_synchronize_session\": \"fetch\"}\n            return cls._do_pre_synchronize_fetch(\n                session,\n                statement,\n                params,\n                execution_options,\n                bind_arguments,\n                update_options,\n            )\n\n"
+             "        return update_options + {\n            \"_eval_condition\": eval_condition,\n            \"_synchronize_session\": \"evaluate\",\n        }\n"), None)
+R.mutant("auto-handler-form-falls-through-to-evaluate", BP,
+         sub("        except evaluator.UnevaluatableError:\n            pass\n        else:\n            return update_options + {\n", "        except evaluator.UnevaluatableError:\n            eval_condition = None\n        if True:\n            return update_options + {\n"), "C43-R4")
+R.mutant("benign-set-values-locals-renamed", BP, chain(sub("to_evaluate", "evaluable", count=12), sub("evaluator_compiler", "criteria_compiler", count=4)), None)
+R.mutant("set-values-renamed-nothing-expired", BP,
+         chain(sub("to_evaluate", "evaluable", count=12), sub("            to_expire = attrib.intersection(dict_).difference(evaluable)\n", "            to_expire = set()\n")), "C43-R4")
